@@ -34,16 +34,17 @@ func (in *Interp) binop(op token.Token, a, b Value, ta, tb types.Type) Value {
 		case token.ADD:
 			return StrV{append(append([]*Term{}, sa.b...), sb.b...)}
 		case token.LSS, token.LEQ, token.GTR, token.GEQ:
-			c := in.strCmp(sa, sb) // -1,0,1 concrete after forking
+			c := cmpBytesTerm(sa.b, sb.b) // -1,0,1 as a 64-bit term, no forking
+			z := BVi(64, 0)
 			switch op {
 			case token.LSS:
-				return Bool(c < 0)
+				return CmpBV("bvslt", c, z)
 			case token.LEQ:
-				return Bool(c <= 0)
+				return CmpBV("bvsle", c, z)
 			case token.GTR:
-				return Bool(c > 0)
+				return CmpBV("bvslt", z, c)
 			default:
-				return Bool(c >= 0)
+				return CmpBV("bvsle", z, c)
 			}
 		}
 		in.abort("unsupported", "string op "+op.String())
@@ -274,6 +275,35 @@ func (in *Interp) eqAny(a, b Value) *Term {
 		return Bool(x.fn == nil && b.(FuncV).fn == nil)
 	}
 	return in.valEq(a, b)
+}
+
+// cmpBytesTerm is the lexicographic three-way comparison of two byte sequences
+// as one term (-1, 0, 1 as int): the common prefix is compared as one wide
+// big-endian bit-vector, ties are decided by the (concrete) lengths.
+func cmpBytesTerm(a, b []*Term) *Term {
+	n := len(a)
+	if len(b) < n {
+		n = len(b)
+	}
+	tie := int64(0)
+	switch {
+	case len(a) < len(b):
+		tie = -1
+	case len(a) > len(b):
+		tie = 1
+	}
+	if n == 0 {
+		return BVi(64, tie)
+	}
+	var A, B *Term
+	for i := 0; i < n; i++ {
+		if A == nil {
+			A, B = a[i], b[i]
+		} else {
+			A, B = Concat(A, a[i]), Concat(B, b[i])
+		}
+	}
+	return Ite(CmpBV("bvult", A, B), BVi(64, -1), Ite(Eq(A, B), BVi(64, tie), BVi(64, 1)))
 }
 
 // three-way string compare by forking (lexicographic, bytes)
